@@ -529,6 +529,11 @@ func (dec *Decoder) initFrame() error {
 	dec.brMBX = dec.mbW
 	dec.brMBY = dec.mbH
 
+	// Initialize the left context too (libwebp: VP8InitScanline in
+	// AllocateMemory). A pooled decoder whose previous frame failed mid-row
+	// would otherwise start with that row's stale left intra modes.
+	dec.initScanline()
+
 	return nil
 }
 
